@@ -22,6 +22,7 @@ MC_PROPERTIES = ["C02_Stable", "C03_Fresh", "C08_Monotone"]
 
 # Event kinds whose presence makes a recorded history non-trivial for a property.
 RELEVANT = {
+    "C17": {"ret", "send"},
     "C14": {"http"},
     "C01": {"s.post"}, "C02": {"s.ack"}, "C03": {"s.pull"}, "C04": {"s.expire"}, "C05": {"s.mod"},
     "C08": {"t.accept"}, "C09": {"s.pull", "srecv"}, "C10": {"m.ct", "m.cs", "m.rs", "m.rt"},
@@ -1140,4 +1141,5 @@ PLANS = {
     "C08": plan_c08, "C09": plan_c09, "C10": plan_c10, "C11": plan_c11, "C13": plan_c13, "C15": plan_c15,
     "C12": plan_c12, "C07": plan_c07, "C06": plan_c06, "C16": plan_c16, "C18": plan_c18, "C19": plan_c19,
     "C14": lambda prop, tier, seed, t0: __import__("plan_push").plan_c14(prop, tier, seed, t0),
+    "C17": lambda prop, tier, seed, t0: __import__("plan_inputs").plan_c17(prop, tier, seed, t0),
 }
